@@ -4,6 +4,7 @@
 //                                     equivalence are read from Variable::VariableImpl)
 // One case per line:
 //   S <script>      commands of harness/common/script.hpp separated by ';' (the model is slot 0): the 2.0 ORIGINAL
+//       -> cyclic-units   (the model's units reference each other in a cycle: printModel would die, finding K3 of C01 / C02)
 //       -> ok <TAB> ENT0 <TAB> V=<validator issue count, -1: died> <TAB> D0 = dumpModel(sorted) <TAB> P1 = s<hex> of printModel
 //          <TAB> PI=<printer issue count>
 //   T <hex of a document>    a (1.0 / 1.1 / any) document: parsed permissively, then strictly
@@ -297,6 +298,48 @@ static long validateCount(const ModelPtr &m)
     return std::stol(s.substr(2));
 }
 
+// a cycle in the "units child references units of the model by name" graph
+static bool unitsCycle(const ModelPtr &m)
+{
+    size_t n = m->unitsCount();
+    std::vector<int> state(n, 0); // 0 new, 1 on the path, 2 done
+    std::function<bool(size_t)> visit = [&](size_t i) -> bool {
+        if (state[i] == 1) {
+            return true;
+        }
+        if (state[i] == 2) {
+            return false;
+        }
+        state[i] = 1;
+        auto u = m->units(i);
+        for (size_t k = 0; k < u->unitCount(); ++k) {
+            std::string ref = u->unitAttributeReference(k);
+            // (also the empty name: the Validator follows it, Model::hasImports does not)
+            if (!m->hasUnits(ref)) {
+                continue;
+            }
+            // Model::units(name) is the first units with that name
+            auto target = m->units(ref);
+            for (size_t j = 0; j < n; ++j) {
+                if (m->units(j) == target) {
+                    if (visit(j)) {
+                        return true;
+                    }
+                    break;
+                }
+            }
+        }
+        state[i] = 2;
+        return false;
+    };
+    for (size_t i = 0; i < n; ++i) {
+        if (visit(i)) {
+            return true;
+        }
+    }
+    return false;
+}
+
 static std::string runCase(const std::string &line)
 {
     if (line.compare(0, 2, "S ") == 0) {
@@ -309,6 +352,11 @@ static std::string runCase(const std::string &line)
         auto m = in.model(0);
         if (m == nullptr) {
             return "nomodel";
+        }
+        if (unitsCycle(m)) {
+            // Printer::printModel -> Model::hasImports recurses without end on a units reference cycle (known finding of
+            // C01 / C02: K3 family); there is no 2.0 print to rewrite
+            return "cyclic-units";
         }
         std::string out = "ok\t" + ent(m);
         out += "\tV=" + std::to_string(validateCount(m));
